@@ -18,9 +18,15 @@ From Verif Require Import Common.
 Record ctx := mkCtx { c_tag : N; c_group : N }.
 
 (* a queued task.  [t_meta = false] is a task whose GetMetadata() is nil (the other
-   metadata fields are then meaningless).  [t_ty] is GetType(). *)
+   metadata fields are then meaningless).  [t_ty] is GetType().  [t_qn] is GetQueueName(),
+   the queue name the task CARRIES (0 stands for the empty string; queue names are numbered
+   densely by the harness, 1 = "main"): the function under study never looks at the name of
+   a queued task, only at the name of the executed one (part 2 below: the lookup in the
+   queue set).  Tasks normally carry the name of the queue they sit in; the bootstrap tasks
+   sit in "main" and carry "", the tasks of the admission / conversion webhook handlers
+   carry "" and sit in no queue. *)
 Record task := mkTask {
-  t_id : N; t_hook : N; t_ty : N; t_meta : bool; t_ctxs : list ctx; t_mids : list N }.
+  t_id : N; t_hook : N; t_ty : N; t_meta : bool; t_ctxs : list ctx; t_mids : list N; t_qn : N }.
 
 Record result := mkResult { r_ctxs : list ctx; r_mids : list N }.
 (* Not modelled: the field CombineResult.AllowFailure (commit b66e651: false iff some
@@ -149,3 +155,143 @@ Definition stop_of (ids : list N) (x : task) : bool := mem_N (t_id x) ids.
 Definition run_model (i : input) : obs :=
   let '(r, q') := combine_concurrent (stop_of (i_stop i)) (i_t i) (i_q i) (i_app i) in
   mkObs (option_map (fun r => (r_ctxs r, r_mids r)) r) (map t_id q').
+
+(* ====================================================================== part 2: the queue SET
+   pkg/task/queue/queue_set.go : TaskQueueSet.GetByName
+   pkg/shell-operator/operator.go:587 (taskHandleHookRun), the only call in shell-operator:
+
+     op.combineBindingContextForHook(op.TaskQueues, op.TaskQueues.GetByName(t.GetQueueName()), t, stopCombineFn)
+
+   The queue the function iterates is LOOKED UP by the name the executed task carries, and
+   the Filter step looks the same name up again.  A task whose name no queue has (the empty
+   name of the bootstrap tasks and of the tasks the admission / conversion webhook handlers
+   run synchronously, outside every queue) gets q == nil and the function returns at its
+   first guard.  [qset] is tqs.Queues (map name -> queue; names are unique, the first match
+   of the association list is the map entry). *)
+Definition qset := list (N * list task).
+
+(* GetByName: ts, exists := tqs.Queues[name]; if exists { return ts }; return nil *)
+Fixpoint get_by_name (name : N) (qs : qset) : option (list task) :=
+  match qs with
+  | [] => None
+  | p :: r => if N.eqb (fst p) name then Some (snd p) else get_by_name name r
+  end.
+
+(* the content of queue [name] becomes [q'] (the queue object is changed in place) *)
+Fixpoint set_queue (name : N) (q' : list task) (qs : qset) : qset :=
+  match qs with
+  | [] => []
+  | p :: r => if N.eqb (fst p) name then (fst p, q') :: r else p :: set_queue name q' r
+  end.
+
+(* tasks that arrive (AddLast) while the combination is in progress, as (queue name, task)
+   in arrival order, to any queue of the set; [arrivals name app] are those for one queue *)
+Fixpoint arrivals (name : N) (app : list (N * task)) : list task :=
+  match app with
+  | [] => []
+  | p :: r => if N.eqb (fst p) name then snd p :: arrivals name r else arrivals name r
+  end.
+Definition arrive (app : list (N * task)) (qs : qset) : qset :=
+  map (fun p => (fst p, snd p ++ arrivals (fst p) app)) qs.
+
+(* the call of taskHandleHookRun.  Iterate sees the looked-up queue as it is when the call
+   starts, Filter (second lookup of the same name) sees it with the arrivals; every other
+   queue is never touched by the function and just receives its arrivals. *)
+Definition combine_set (stopfn : task -> bool) (t : task) (qs : qset) (app : list (N * task))
+  : option result * qset :=
+  match get_by_name (t_qn t) qs with
+  | None => (None, arrive app qs)                         (* if q == nil { return nil } *)
+  | Some qi =>
+      let p := combine_at stopfn t qi (qi ++ arrivals (t_qn t) app) in
+      (fst p, set_queue (t_qn t) (snd p) (arrive app qs))
+  end.
+
+(* [s_t] the executed task (it carries its queue name [t_qn]), [s_stop] as [i_stop],
+   [s_qs] the queue set when the call starts, [s_app] the arrivals *)
+Record sinput := mkSIn { s_t : task; s_stop : list N; s_qs : qset; s_app : list (N * task) }.
+(* the returned CombineResult and the ids left in EVERY queue of the set *)
+Record sobs := mkSObs { so_res : option (list ctx * list N); so_queues : list (N * list N) }.
+
+Definition run_set (i : sinput) : sobs :=
+  let p := combine_set (stop_of (s_stop i)) (s_t i) (s_qs i) (s_app i) in
+  mkSObs (option_map (fun r => (r_ctxs r, r_mids r)) (fst p))
+         (map (fun q => (fst q, map t_id (snd q))) (snd p)).
+
+(* ====================================================================== part 3: the task handler
+   operator.go: taskHandler / taskHandleHookRun, the queue worker (task_queue.go Start), and
+   the two callers that run a task which is in NO queue: the admission event handler of
+   initValidatingWebhookManager and conversionEventHandler build
+       task.NewTask(HookRun).WithMetadata(...)            -- no WithQueueName: the name is ""
+   and call op.taskHandler(task) synchronously, from the HTTP handler's goroutine, while the
+   queues hold whatever they hold.
+
+   Scope of this part: hooks with configVersion v1 and HookRun tasks whose contexts are not
+   an ungrouped kubernetes Synchronization, so the gate [should_combine] is open and
+   stopCombineFn is nil (the cases the harness drives: schedule, onStartup-like, admission
+   and conversion contexts).  Task types: 0 = HookRun; any other type is handled by another
+   branch of taskHandler that never runs a hook and never combines (the harness uses
+   EnableScheduleBindings). *)
+
+(* one step of a session *)
+Inductive ostep :=
+| SHead (qn : N) (ok : bool)     (* the worker of queue [qn] takes its head (GetFirst), calls the
+                                    handler; [ok]: the hook process exits 0 *)
+| SLoose (t : task) (ok : bool). (* a HookRun task that sits in no queue is handed to taskHandler:
+                                    what the webhook handlers do ([t_qn t] = 0) *)
+
+(* one execution of a hook: which hook, the binding contexts in its context file *)
+Record orun := mkRun { ru_hook : N; ru_ctxs : list ctx }.
+(* what a step did: executions, the handler's status is Success, the queue set afterwards *)
+Record ostepobs := mkSO { st_runs : list orun; st_success : bool; st_state : qset }.
+
+(* taskHandleHookRun up to the hook execution: combine through the lookup, then
+   hookMeta.BindingContext / MonitorIDs = the result and t.UpdateMetadata(hookMeta) (when there
+   is a result); returns the execution, the task's metadata afterwards, the queue set *)
+Definition handle_hook_run (t : task) (qs : qset) : orun * task * qset :=
+  let p := combine_set (fun _ => false) t qs [] in
+  (mkRun (t_hook t) (delivered_ctxs t (fst p)),
+   mkTask (t_id t) (t_hook t) (t_ty t) (t_meta t)
+          (delivered_ctxs t (fst p)) (delivered_mids t (fst p)) (t_qn t),
+   snd p).
+
+(* q.remove(id): the first task with that id *)
+Fixpoint remove_id (id : N) (q : list task) : list task :=
+  match q with
+  | [] => []
+  | x :: r => if N.eqb (t_id x) id then r else x :: remove_id id r
+  end.
+(* UpdateMetadata on the task object the worker holds (the first with that id) *)
+Fixpoint replace_id (t' : task) (q : list task) : list task :=
+  match q with
+  | [] => []
+  | x :: r => if N.eqb (t_id x) (t_id t') then t' :: r else x :: replace_id t' r
+  end.
+
+Definition model_step (qs : qset) (st : ostep) : ostepobs :=
+  match st with
+  | SHead qn ok =>
+      match get_by_name qn qs with
+      | Some (t :: rest) =>
+          if N.eqb (t_ty t) 0 then
+            let h := handle_hook_run t qs in
+            let q' := match get_by_name qn (snd h) with Some q' => q' | None => [] end in
+            (* Success: the worker removes the task by id; Fail: it stays, with the metadata
+               the handler stored, and is retried after the back-off delay *)
+            mkSO [fst (fst h)] ok
+                 (set_queue qn (if ok then remove_id (t_id t) q' else replace_id (snd (fst h)) q') (snd h))
+          else
+            mkSO [] true (set_queue qn (remove_id (t_id t) (t :: rest)) qs)
+      | _ => mkSO [] true qs                       (* waitForTask: nothing to handle *)
+      end
+  | SLoose t ok =>
+      let h := handle_hook_run t qs in
+      mkSO [fst (fst h)] ok (snd h)                (* nobody removes anything: the task is in no queue *)
+  end.
+
+Fixpoint run_session (qs : qset) (steps : list ostep) : list ostepobs :=
+  match steps with
+  | [] => []
+  | st :: r => let o := model_step qs st in o :: run_session (st_state o) r
+  end.
+
+Record oinput := mkOIn { oi_qs : qset; oi_steps : list ostep }.
